@@ -228,12 +228,14 @@ add(Contract(
     ghost_kinds={'g_impl_called': 'bool', 'g_asm_called': 'bool', 'g_asm': 'bytes', 'g_buf': 'dyn'},
     modifies=[], allocates=True, returns='dyn'))
 
-# ASSUMED (role): FragmentsOfRegexps.__init__(*args, **kargs) forwards its arguments to Fragments.__init__ (proved, C11)
-# and creates an empty piece map; *args/**kargs forwarding is outside the python subset of the VC generator
+# FragmentsOfRegexps.__init__(*args, **kargs) forwards its arguments to Fragments.__init__ (proved, C11) and creates an
+# empty piece map.  Proved for the way the library constructs it (no arguments: both requires are obligations at the
+# one call site, Packet.as_regular_expression); the forwarding call is translated as Fragments.__init__(self) under
+# the call-site obligations "*args is empty" / "**kargs is empty" (pyvc/execute.py m_call)
 add(Contract(
-    'fragments:FragmentsOfRegexps.__init__', role=True,
-    params={'self': 'ref:FragmentsOfRegexps'},
-    requires=[],
+    'fragments:FragmentsOfRegexps.__init__',
+    params={'self': 'ref:FragmentsOfRegexps', 'args': 'varargs', 'kargs': 'conf'}, varkw='kargs',
+    requires=["len(args) == 0", "nokw(kargs)"],
     ensures=["RxWF(self)", "self.current_offset == 0", "forall(lambda q: not (q in self.fragments))", "AtEnd(self)",
              "forall(lambda q: not (q in self.regexp_by_position))", "fresh_since(self.begin_of_fragments)"],
     modifies=['self.*'], allocates=True))
